@@ -683,7 +683,7 @@ func init() {
 				cs = append(cs, CaseSpec{Kind: "sigkill", P: map[string]int64{"n": int64(2 + i%3), "k": int64(50 + i*211%3000), "after": int64(i % 2), "steps": 300, "cont": 80, "second": int64(i % 2)}})
 			}
 			// killed by strace between two database commits of the victim
-			for i := 0; i < 4*kills; i++ {
+			for i := 0; i < 8*kills; i++ {
 				cs = append(cs, CaseSpec{Kind: "syscallkill", P: map[string]int64{"n": int64(2 + i%3), "when": int64(15 + (i*37)%160), "steps": 300, "cont": 60, "second": 1}})
 			}
 			return cs
